@@ -56,6 +56,10 @@ def components():
     add('b35', lambda i: [('p%d' % i, B(3)), ('q%d' % i, B(5))])
     add('b178', lambda i: [('p%d' % i, B(1)), ('q%d' % i, B(7)), ('r%d' % i, B(8))])
     add('b4c8', lambda i: [('p%d' % i, B(4)), ('q%d' % i, B(12)), ('r%d' % i, B(8))])
+    # runs wider than a 32-bit and than a 64-bit word
+    add('b40', lambda i: [('p%d' % i, B(4)), ('q%d' % i, B(12)), ('r%d' % i, B(20)), ('s%d' % i, B(4))])
+    add('b72', lambda i: [('p%d' % i, B(36)), ('q%d' % i, B(36))])
+    add('b80', lambda i: [('p%d' % i, B(8)), ('q%d' % i, B(4)), ('r%d' % i, B(4)), ('s%d' % i, B(63)), ('t%d' % i, B(1))])
     # ---- references
     add('r1', lambda i: [('s%d' % i, R(SUB))])
     add('r1b', lambda i: [('s%d' % i, R(SUB, 'bare'))])
@@ -189,6 +193,8 @@ def _boundary():
     add('sn2', lambda i: [('n%d' % i, I(2)), ('l%d' % i, S(I(1), F('n%d' % i)))], lambda N: N.to_bytes(2, 'big') + _pat(N))
     add('sn2w', lambda i: [('n%d' % i, I(2)), ('l%d' % i, S(I(2, end='little'), F('n%d' % i)))], lambda N: N.to_bytes(2, 'big') + _pat(2 * N))
     add('sr2', lambda i: [('n%d' % i, I(2)), ('l%d' % i, S(R(PT), F('n%d' % i)))], lambda N: N.to_bytes(2, 'big') + _pat(2 * N))
+    add('sd4', lambda i: [('n%d' % i, I(2)), ('l%d' % i, S(D(C(4)), F('n%d' % i)))], lambda N: N.to_bytes(2, 'big') + _pat(4 * N))
+    add('sd1', lambda i: [('n%d' % i, I(2)), ('l%d' % i, S(D(C(1)), F('n%d' % i)))], lambda N: N.to_bytes(2, 'big') + _pat(N))
     add('dd2', lambda i: [('n%d' % i, dict(I(2), desc={'k': 'autolength', 'of': 'd%d' % i})), ('d%d' % i, D(F('n%d' % i)))],
         lambda N: N.to_bytes(2, 'big') + _pat(N))
     add('dm0', lambda i: [('d%d' % i, DM(b'\x00'))], lambda N: _pat(N) + b'\x00')
@@ -211,6 +217,10 @@ def structure_specs():
             specs.append({'names': base * 4, 'wrapper': w})
         specs.append({'names': base * 4, 'wrapper': 'a', 'opts': {'vectorize': False}})
         specs.append({'names': base * 4, 'wrapper': 'a', 'opts': {'endianness': 'little', 'annotate': False}})
+    # long runs of fixed fields of one byte order (17, 20, 33, 40 fields; mixed widths)
+    for run in (['i1'] * 17, ['i1'] * 20, ['i2'] * 33, ['i1', 'i2'] * 10, ['i2', 'd2', 'i1', 'i4'] * 10, ['i2l'] * 18 + ['i2'] * 18):
+        specs.append({'names': run, 'wrapper': 'a'})
+        specs.append({'names': run, 'wrapper': 'b', 'opts': {'annotate': False}})
     # the NESTED class alone runs the field-by-field loop (both directions / one of them) inside holders with generated code
     for c in ('p_at3', 'p_atn', 'p_atl', 'p_al6i', 'p_al4i', 'p_aln', 'p_em2i', 'p_ref', 'p_d0', 'p_al2', 'p_shm1', 'sn', 'r1', 'o1', 'dn'):
         for w in 'bcd':
@@ -224,9 +234,14 @@ def structure_specs():
     return specs
 
 
+LADDER = (5, 8, 9, 16, 17, 32, 33, 64, 65, 128, 129, 1024, 1025, 4096, 4097, 8192, 8193)
+
+
 def boundary_specs(sizes=(255, 256, 257), wrappers='ab', cut=True):
     """declarations over the boundary components with the inputs that cross the boundaries: exact encodings for each size,
-    the same with one byte missing, and (one-byte length fields) 255"""
+    the same with one byte missing, and (one-byte length fields) 255; plus a LADDER of sizes (powers of two and their
+    successors up to 8193 - io buffer sizes included) with exact encodings only; plus nesting ladders (a chain of 4..8
+    references; a list inside a list inside a list)"""
     specs = []
     for name, enc in BOUNDARY_BYTES.items():
         for w in wrappers:
@@ -237,14 +252,42 @@ def boundary_specs(sizes=(255, 256, 257), wrappers='ab', cut=True):
                 ins.append(raw)
                 if cut:
                     ins.append(raw[:-2])
+            if w == 'a':
+                for N in LADDER:
+                    ins.append(enc(N) + b'\x07')
             specs.append({'names': [name, 'i1'], 'wrapper': w, 'extra_inputs': ins})
-    for name, mk in (('dn', lambda N: bytes([N]) + _pat(N)), ('sn', lambda N: bytes([N]) + _pat(N)), ('sr', lambda N: bytes([N]) + b'\x01Q' * N)):
-        ins = [mk(255) + b'\x07', mk(255)[:-1], mk(254) + b'\x07']
+    for name, mk in (('dn', lambda N: bytes([N]) + _pat(N)), ('sn', lambda N: bytes([N]) + _pat(N)), ('sr', lambda N: bytes([N]) + b'\x01Q' * N),
+                     ('sns', lambda N: bytes([N]) + _pat(2 * N)), ('m0', lambda N: _pat(N) + b'\x00'), ('su', lambda N: _pat(N - 1) + b'\x00')):
+        ins = [mk(255) + b'\x07', mk(255)[:-1], mk(254) + b'\x07'] + [mk(N) + b'\x07' for N in LADDER if N < 255]
         specs.append({'names': [name, 'i1'], 'wrapper': 'a', 'extra_inputs': ins})
+        specs.append({'names': ['i1', name], 'wrapper': 'c', 'extra_inputs': [b'\x01\x05' + mk(N) for N in (5, 17, 33, 129)] +
+                      [bytes([k]) + (b'\x05' + mk(3)) * k for k in (4, 5, 8, 9, 16, 17, 33)]})
     # wide integers and a bit run longer than eight bytes
     for name in ('x9defu', 'x9lits', 'x9locs', 'x9netu'):
         specs.append({'names': [name, 'i1'], 'wrapper': 'a',
                       'extra_inputs': [bytes(range(1, 10)) + b'\x07', b'\xff' * 9 + b'\x07', b'\x80' + b'\x00' * 8 + b'\x07', bytes(range(1, 9))]})
+    # far positions: holes longer than 255 / 256 / 4096 bytes
+    for m, arg in (('at', 255), ('at', 256), ('at', 257), ('at', 300), ('at', 600), ('aligned', 512), ('shift', 300), ('at', 4097), ('aligned', 8192)):
+        for elem, tail in ((I(1), b'A'), (D(C(3)), b'ABC')):
+            K = PKT('K', [('h', I(1)), ('x', pos(elem, m, C(arg))), ('z', I(1))])
+            where = {'at': arg, 'shift': 1 + arg, 'aligned': arg}[m]
+            raw = b'\x07' + b'\x2e' * (where - 1) + tail + b'\x09'
+            specs.append({'P': K, 'tag': 'far %s(%d)' % (m, arg), 'extra_inputs': [raw, raw[:-1], raw[:where], b'\x07' + bytes((i % 200) + 1 for i in range(where - 1)) + tail + b'\x09']})
+            specs.append({'P': PKT('W', [('pre', I(2)), ('body', R(K))]), 'tag': 'far %s(%d) nested' % (m, arg), 'extra_inputs': [b'\x01\x02' + raw, b'\x01\x02' + raw[:-1]]})
+    # nesting ladders: a chain of references 4..8 deep around Data-by-length, and lists of lists of lists
+    for depth in (4, 5, 6, 8):
+        P = PKT('N0', [('n', I(1)), ('d', D(F('n')))])
+        for k in range(1, depth):
+            P = PKT('N%d' % k, [('h', I(1)), ('inner', R(P)), ('t', I(1))])
+        raw = bytes(range(1, depth)) + b'\x02AB' + bytes(range(depth - 1, 0, -1))
+        specs.append({'P': P, 'tag': 'chain of %d references' % depth, 'extra_inputs': [raw, raw[:-1], raw[:depth]]})
+    L0 = PKT('L0', [('n', I(1)), ('l', S(I(1), F('n')))])
+    L1 = PKT('L1', [('n', I(1)), ('l', S(R(L0), F('n')))])
+    L2 = PKT('L2', [('n', I(1)), ('l', S(R(L1), F('n'))), ('z', I(1))])
+    inner = b'\x02\x07\x08'
+    mid = b'\x03' + inner * 3
+    specs.append({'P': L2, 'tag': 'lists of lists of lists', 'extra_inputs': [b'\x02' + mid * 2 + b'\x09', b'\x05' + mid * 5 + b'\x09', b'\x05' + mid * 5,
+                                                                             b'\x01\x05' + inner * 5 + b'\x09', b'\x01\x01\x09' + bytes(range(9)) + b'\x09']})
     return specs
 
 # one representative per mechanism, used for pairs in the quick tier and triples in the thorough tier
